@@ -41,14 +41,19 @@ func (t *mixedTable) insert(k, v Value) {
 	if ok && t.array.setValue(i, v) {
 		return
 	}
+	if ok {
+		k = IntValue(i)
+	}
 	if t.hashTable.full() {
+		// Assigning to an existing field needs no room and must not reorganise
+		// the table, as that would disrupt a traversal in progress.
+		if t.hashTable.reset(k, v) {
+			return
+		}
 		t.grow()
 		if ok && t.array.setValue(i, v) {
 			return
 		}
-	}
-	if ok {
-		k = IntValue(i)
 	}
 	t.hashTable.set(k, v)
 }
